@@ -40,6 +40,10 @@ def run_peer(spec, role, argv):
     return drive.run_cli(argv + ['-c'], net)
 
 
+def _canon_findings(fs):
+    return [(c, n, sev, c03.TWTEXT if ('Terrapin' in t and 'pseudo-algorithm' not in t) else t) for c, n, sev, t in fs]
+
+
 def is_subsequence(small, big):
     it = iter(big)
     return all(any(x == y for y in it) for x in small)
@@ -84,7 +88,7 @@ def eval_case(case):
             continue
         b, v, n, l = rest
         tr = report.TextReport(r.out, verbose=bool(v))
-        f = collections.Counter(tr.findings())
+        f = collections.Counter(_canon_findings(tr.findings()))
         if l == 'info':
             if ref is None:
                 ref, ref_key = f, (b, v, n)
@@ -114,14 +118,14 @@ def eval_case(case):
         base = runs[('t', b, v, n, 'info')]
         base_lines = report.TextReport(base.out).nonblank if not n else [x for x in base.out.split('\n') if x.strip()]
         base_lines_raw = [x for x in base.out.split('\n') if x.strip()]
-        fbase = collections.Counter(report.TextReport(base.out, verbose=bool(v)).findings())
+        fbase = collections.Counter(_canon_findings(report.TextReport(base.out, verbose=bool(v)).findings()))
         for l in ('warn', 'fail'):
             r = runs[('t', b, v, n, l)]
             lines = [x for x in r.out.split('\n') if x.strip()]
             if not is_subsequence(lines, base_lines_raw):
                 extra = [x for x in lines if x not in base_lines_raw][:3]
                 fails.append(['raising-level-adds-or-alters-lines', 'b=%d v=%d n=%d -l %s: %r' % (b, v, n, l, extra)])
-            f = collections.Counter(report.TextReport(r.out, verbose=bool(v)).findings())
+            f = collections.Counter(_canon_findings(report.TextReport(r.out, verbose=bool(v)).findings()))
             wantf = collections.Counter({k: c for k, c in fbase.items() if RANK[k[2]] >= RANK[l]})
             if f != wantf:
                 diff = list((f - wantf).items())[:3] + list((wantf - f).items())[:3]
@@ -151,7 +155,7 @@ def eval_case(case):
                 fails.append(['json-value-depends-on-options', repr(k)])
                 break
         if ref is not None:
-            jf = collections.Counter(report.JsonReport(first).findings())
+            jf = collections.Counter(_canon_findings(report.JsonReport(first).findings()))
             known = lambda k: refmodel.db_lookup(db, k[0], k[1]) is not None
             a = collections.Counter({k: c for k, c in jf.items() if known(k)})
             b_ = collections.Counter({k: c for k, c in ref.items() if known(k)})
